@@ -28,7 +28,7 @@ CHECKS = {
         category="exploration",
         engine="E4 + H3",
         technique="bounded exhaustive input enumeration: all single-bit flips / truncations / extensions of every family frame against the real DataView::using with an independent bitwise CRC-32 reference, plus round trips through the real client/handler over the in-process transport",
-        text="Every value of a message family (fixed, text/bytes/option, nested, four tiny types with alignment 1-2 and sizes not divisible by 4; payload sizes from a boundary grid up to 64 KiB, 1 MiB in thorough) is sent through the real RpcClient -> handle_connection -> handler and back and compared on both sides; every ErrorCode x message text comes back unchanged; for every frame up to 400 (quick) / 9000 (thorough) bytes ALL single-bit flips, ALL truncations, 12 extensions and every CRC-valid body shorter than the archived root are judged by DataView::using exactly as the reference predicate demands, and the same hostile frames handed to a typed handler are refused as InvalidPayload without the handler running or anything panicking.",
+        text="Every value of a message family (fixed, text/bytes/option, nested, four tiny types with alignment 1-2 and sizes not divisible by 4; payload sizes from a boundary grid up to 64 KiB, 1 MiB in thorough) is sent through the real RpcClient -> handle_connection -> handler and back and compared on both sides; every ErrorCode x message text comes back unchanged; for every frame up to 400 (quick) / 9000 (thorough) bytes ALL single-bit flips, ALL truncations, 12 extensions, every CRC-valid body shorter than the archived root, and for frames above one 16 KiB block (up to 40 KB quick / 140 KB thorough) every bit of the first 8 and last 128 bytes plus a stride through the middle are judged by DataView::using exactly as the reference predicate demands, and the same hostile frames handed to a typed handler are refused as InvalidPayload without the handler running or anything panicking.",
         note="In-process transport: hyper/h2 chunking bypassed (single-chunk bodies). Debug assertions on, so an out-of-range root position is a panic, not UB.",
         design="DESIGN.md section 3, C12",
     ),
@@ -68,7 +68,7 @@ CHECKS = {
         category="model_checking",
         engine="E1/E2 Layer B cluster (choice-point exploration by re-execution)",
         technique="stateless exploration of a real in-process cluster: exhaustive operation histories x deviation-bounded enumeration of every environment choice point (per-RPC deliver/lose request/lose reply incl. the requests of mid-history repair exchanges, extra flush/repair/restart events and one 55-minute jump (the history stays within one forgiveness period), a node unreachable until a chosen moment, late flushes, closing order) by re-execution from choice prefixes; plus all await-point interleavings (preemption-bounded) of two concurrent client operations",
-        text="Real nodes (Clock, KeyspaceGroup + actors, in-process RPC services, selector, distributor behind a flush gate, poller one cycle at a time, public ReplicatedStoreHandle) are driven through every history of put/del/put_many/del_many (levels None/All, One in thorough) on 2 keys: quick = N=2 with 2 ops <=2 deviations and 3 ops <=1, N=3 2 ops <=1, MemStore variant, lagging-node block, clock-skew block, faulty-repair blocks (1 op <=4, 2 ops <=2 deviations), 55-minute-jump block, two scripted 'sharp driver' skeletons (a node misses the first operation, 55 minutes pass, it receives the second one, restarts or not) with <=1 deviation on top, concurrency block (two operations, or a repair cycle racing with an operation, fine-grained) with <=3 preemptions (~1 M executions, 13 s); thorough = N=2 up to 4 ops / 3 deviations, N=3 up to 3 ops, every special block deeper, <=4 preemptions. After the closing exchanges (every ordered pair, order itself a choice) and again after late batch flushes all nodes must return the same live documents, equal per id to the locally issued write with the greatest stamp (from the issuers' storage logs); set/store agreement (C02) is a side condition on every node.",
+        text="Real nodes (Clock, KeyspaceGroup + actors, in-process RPC services, selector, distributor behind a flush gate, poller one cycle at a time, public ReplicatedStoreHandle) are driven through every history of put/del/put_many/del_many (levels None/All, One in thorough) on 2 keys: quick = N=2 with 2 ops <=2 deviations and 3 ops <=1, N=3 2 ops <=1, MemStore variant, lagging-node block, clock-skew block, faulty-repair blocks (1 op <=4, 2 ops <=2 deviations), an anti-entropy-only block (every direct message and batch lost, 3 ops <=1 deviation), 55-minute-jump block, two scripted 'sharp driver' skeletons (a node misses the first operation, 55 minutes pass, it receives the second one, restarts or not) with <=1 deviation on top, concurrency block (two operations, or a repair cycle racing with an operation, fine-grained) with <=3 preemptions (~1 M executions, 13 s); thorough = N=2 up to 4 ops / 3 deviations, N=3 up to 3 ops, every special block deeper, <=4 preemptions. After the closing exchanges (every ordered pair, order itself a choice) and again after late batch flushes all nodes must return the same live documents, equal per id to the locally issued write with the greatest stamp (from the issuers' storage logs); set/store agreement (C02) is a side condition on every node.",
         note="Bounded: 2-3 nodes, 2 keys, <=4 operations, <=3 deviations; fixed membership; repair requests are faulted in dedicated N=2 blocks only; the closing exchanges always complete. In-process transport instead of HTTP/2.",
         design="DESIGN.md section 3, C01",
     ),
@@ -76,7 +76,7 @@ CHECKS = {
         category="fault_enumeration",
         engine="E1 Layer B cluster",
         technique="exhaustive enumeration of layouts x issuer x level x operation kind x prior selection x every assignment of {ack, request lost, reply lost, storage failure} to the other nodes, executed through the public store handle on a real in-process cluster",
-        text="5 (quick) / 11 (thorough) layouts of 2-4 nodes in 1-3 data centres (plus 6-, 7-, 8- and 9-node clusters with at most two non-acknowledging nodes), every issuer, all 8 levels, 2/4 operation kinds, fresh and pre-advanced selector cursors, all 5^(N-1) fault assignments ({ack, request lost, reply lost, storage failure, storage failure after the first document of a bulk call}). At the moment the call returns every node's storage is read: Ok implies the issuer and at least the required number of other nodes (and per-DC majorities) hold the write or a newer one; a consistency error must report exactly the number of replicas that applied the write and had their reply delivered, the local write must be in place, and after the faults clear a batch flush plus a repair round must bring it to every node.",
+        text="5 (quick) / 11 (thorough) layouts of 2-4 nodes in 1-3 data centres (plus 6-, 7-, 8- and 9-node clusters with at most two non-acknowledging nodes), every issuer, all 8 levels, 2/4 operation kinds, fresh and pre-advanced selector cursors, all 6^(N-1) fault assignments ({ack, request lost, reply lost, storage failure, storage failure after the first document of a bulk call, node without the consistency service answering ServiceUnavailable}). At the moment the call returns every node's storage is read: Ok implies the issuer and at least the required number of other nodes (and per-DC majorities) hold the write or a newer one; a consistency error must report exactly the number of replicas that applied the write and had their reply delivered, the local write must be in place, and after the faults clear a batch flush plus a repair round must bring it to every node.",
         note="The issuer's own storage does not fail. Selection failures are only checked to be justified (C15 decides selection).",
         design="DESIGN.md section 3, C06",
     ),
